@@ -11,4 +11,4 @@ Ltac tie_split :=
   | H : context [if ?c then _ else _] |- _ => let E := fresh "E" in destruct c eqn:E
   end.
 Ltac tie_done := first [ reflexivity | discriminate | lia | (f_equal; lia) | (f_equal; f_equal; lia) | (repeat f_equal; lia) ].
-Ltac tie := intros; cbv beta zeta; tie_split; try tie_done.
+Ltac tie := intros; cbv beta zeta in *; cbn [implb negb fst snd] in *; tie_split; cbn [implb negb] in *; try tie_done.
